@@ -59,6 +59,8 @@ pub struct History {
     pub scr: bool,
     pub utf8: bool,
     pub evs: Vec<HEv>,
+    pub setup: Vec<HEv>,
+    pub dispsetup: bool,
 }
 
 impl History {
@@ -72,12 +74,15 @@ impl History {
             scr: v["scr"].as_bool().unwrap_or(true),
             utf8: v["utf8"].as_bool().unwrap_or(true),
             evs: v["evs"].as_array().map(|a| a.iter().map(HEv::from_json).collect()).unwrap_or_default(),
+            setup: v["setup"].as_array().map(|a| a.iter().map(HEv::from_json).collect()).unwrap_or_default(),
+            dispsetup: v["dispsetup"].as_bool().unwrap_or(false),
         }
     }
     pub fn json(&self) -> String {
         let evs: Vec<String> = self.evs.iter().map(|e| e.json()).collect();
+        let setup: Vec<String> = self.setup.iter().map(|e| e.json()).collect();
         format!(
-            "{{\"id\":{},\"sid\":{},\"cmp\":{},\"C\":{},\"L\":{},\"scr\":{},\"utf8\":{},\"evs\":[{}]}}",
+            "{{\"id\":{},\"sid\":{},\"cmp\":{},\"C\":{},\"L\":{},\"scr\":{},\"utf8\":{},\"dispsetup\":{},\"setup\":[{}],\"evs\":[{}]}}",
             serde_json::to_string(&self.id).unwrap(),
             serde_json::to_string(&self.sid).unwrap(),
             serde_json::to_string(&self.cmp).unwrap(),
@@ -85,6 +90,8 @@ impl History {
             self.l,
             self.scr,
             self.utf8,
+            self.dispsetup,
+            setup.join(","),
             evs.join(",")
         )
     }
@@ -412,6 +419,25 @@ impl Machine {
 
 pub fn run_history(h: &History) -> Vec<String> {
     let mut m = Machine::new(h);
+    if !h.setup.is_empty() {
+        // setup history: executed through the API without per-step logging, then one
+        // `sync` line with the events (and their width facts) and the full state reached
+        lock(&m.tap).log_ops = false;
+        for e in &h.setup {
+            m.api(&e.ev);
+            if h.dispsetup {
+                lock(&m.tap).display();
+            }
+        }
+        let mut t = lock(&m.tap);
+        t.log_ops = true;
+        let evs: Vec<String> = std::mem::take(&mut t.events).iter().filter(|e| e.op != "display").map(|e| e.json()).collect();
+        t.proj.reset();
+        let post = t.project();
+        let panics = t.panics;
+        drop(t);
+        m.out.push(format!("{{\"k\":\"sync\",\"C\":{},\"L\":{},\"panics\":{},\"setup\":[{}],\"post\":{}}}", h.c, h.l, panics, evs.join(","), post));
+    }
     for e in &h.evs {
         m.step(e);
     }
